@@ -17,7 +17,7 @@ Traces == JsonDeserialize(IOEnv.TRACE_FILE)
 VARIABLES tr, verdict
 tvars == <<lvars, tr, verdict>>
 Rec == Traces[tr]
-TInit == \E i \in 1..Len(Traces) : tr = i /\ LexInit(Traces[i].syms) /\ verdict = "run"
+TInit == \E i \in 1..Len(Traces) : tr = i /\ LexInitR(Traces[i].syms, Traces[i].route) /\ verdict = "run"
 
 NoSpace(s) == SelectSeq(s, LAMBDA x : x \notin Space)
 \* spec node a against recorded node b
